@@ -56,6 +56,12 @@ JINJA = [
     "{% for t in ['t1', 't2'] %}\nSELECT a FROM {{ t }}{% if not loop.last %}\nUNION ALL{% endif %}\n{% endfor %}\n",
     "SELECT {# comment #} a, {{ 1 + 1 }} AS two FROM tbl WHERE {% raw %}'{{x}}'{% endraw %} = b\n",
 ]
+JINJA += [
+    "{% set payment_methods = ['card', 'cash'] %}\nSELECT\n    {% for m in payment_methods %}\n    {{ m }}_amount,\n    {% endfor %}\n    order_id\nFROM orders\n",
+    "{# model: daily revenue by channel #}\nSELECT a, b\nFROM tbl\n{#- trailing note about grain -#}\nWHERE a > 1\n",
+    "SELECT a\nFROM tbl\n{% do log('some message for the run', info=True) if false %}\nWHERE b = 2\n",
+]
+TAG = re.compile(r"\{[%#].*?[%#]\}", re.S)
 TOKEN = re.compile(r"\s+|[A-Za-z_][A-Za-z_0-9]*|\d+|'[^']*'|\"[^\"]*\"|.", re.S)
 
 _FIXTURE_CACHE: dict[str, list] = {}
@@ -76,7 +82,18 @@ def fixtures(dialect: str) -> list[str]:
     return _FIXTURE_CACHE[dialect]
 
 
-def mutate(rng: Rng, text: str) -> tuple[str, str]:
+def mutate(rng: Rng, text: str, force_tag: bool = False) -> tuple[str, str]:
+    tags = list(TAG.finditer(text))
+    if tags and (force_tag or rng.chance(0.5)):
+        # templated input: change letters INSIDE a template tag / comment, keeping its length, so that
+        # the sibling has the same source offsets but another source text in that slice
+        m = rng.choice(tags)
+        pos = [i for i in range(m.start() + 2, m.end() - 2) if text[i].isalpha() and text[i] not in "setdoiforendelif"]
+        if pos:
+            chars = list(text)
+            for i in rng.sample(pos, min(len(pos), rng.randint(1, 3))):
+                chars[i] = "q" if chars[i] != "q" else "w"
+            return "".join(chars), "retag"
     toks = TOKEN.findall(text)
     if len(toks) < 4:
         return text, "none"
@@ -138,12 +155,12 @@ def gen_inputs(rng: Rng) -> tuple[list[dict], list[dict]]:
             base = rng.choice(inputs)
             text, d, templater, src = base["base"], base["dialect"], base["templater"], base["src"]
             family = base["src"]
-        elif r < 0.15:
+        elif r < 0.22:
             text = rng.choice(JINJA)
             templater = "jinja"
             src = "jinja"
             d = "ansi" if dialect not in ("ansi", "postgres", "bigquery", "snowflake") else dialect
-        elif r < 0.3 or not fixtures(dialect):
+        elif r < 0.34 or not fixtures(dialect):
             text = rng.choice(corpus("ansi"))
             src = "corpus"
             d = dialect
@@ -166,6 +183,11 @@ def gen_inputs(rng: Rng) -> tuple[list[dict], list[dict]]:
         if rng.chance(0.45) or family:
             text, mut = mutate(rng, text)
         inputs.append({"text": text, "base": base_text, "dialect": d, "templater": templater, "src": src, "mut": mut})
+        if templater == "jinja" and not family and TAG.search(base_text) and rng.chance(0.7):
+            # its twin: same template, same source offsets, other text inside one tag
+            t2, m2 = mutate(rng, base_text, force_tag=True)
+            if t2 != text:
+                inputs.append({"text": t2, "base": base_text, "dialect": d, "templater": templater, "src": src, "mut": m2})
     if rng.chance(0.5):
         # an "aborted parse, then its near twin" pair: a multi-statement base; twin A gets an
         # opening bracket without partner in the second half (the parser raises part-way, after
